@@ -259,7 +259,7 @@ func updateStock(quantity *traits.Consumable_Quantity, src, dst *traits.Consumab
 		if amount < 0 {
 			amount = 0
 		}
-		dst.Remaining = &traits.Consumable_Quantity{Unit: src.Used.Unit, Amount: amount}
+		dst.Remaining = &traits.Consumable_Quantity{Unit: src.Remaining.Unit, Amount: amount}
 	}
 	return nil
 }
